@@ -709,6 +709,21 @@ func runC20(c *Ctx) {
 		R.Ob("(*Server).handleConn/registers under the lock before serving", c.P.Pos(f.Pos()), reg, "the connection is not registered in Server.conns under Server.locker before it is served: Server.Close can miss it")
 		R.Ob("(*Server).handleConn/unregisters under the lock on exit", c.P.Pos(f.Pos()), unreg, "the connection is not removed from Server.conns under the lock in the deferred exit")
 	}
+	// Serve records its listener before it starts accepting, so Close/Shutdown can close it and make Serve return
+	if f := c.A.Func("(*Server).Serve"); f != nil {
+		ok := false
+		for _, acc := range s.Find(f, "icall:iface:(net.Listener).Accept") {
+			ok = true
+			seen := s.SeenBefore(acc)
+			R.Ob(c.siteKey(acc, "listener recorded before Accept"), c.P.InstrPos(acc), seen["st:Server.listeners"], "Serve accepts on a listener it has not recorded in Server.listeners: Close cannot close it and Serve never returns")
+		}
+		for _, st := range s.Find(f, "st:Server.listeners") {
+			_, _, v := storedField(st)
+			d := describe(v)
+			R.Ob(c.siteKey(st, "listener list grows by this listener"), c.P.InstrPos(st), strings.HasPrefix(d, "builtin:append(Server.listeners,"), "Server.listeners is set to "+d)
+		}
+		R.Ob("(*Server).Serve/accepts", c.P.Pos(f.Pos()), ok, "no Accept call found")
+	}
 }
 
 func rw(w bool) string {
